@@ -339,6 +339,10 @@ func (e *Exec) ghostPrimitive(st *State, fr *Frame, fn *ssa.Function, args []Val
 	case "ghost_wr_err":
 		w := e.wr(s, streamRef(args[0]))
 		return one(st, &IfaceV{Tid: w.errT, Ref: w.errR}), true
+	case "ghost_emitted":
+		return one(st, e.ghGet(s, "emitted", BV(64), IntConst(0))), true
+	case "ghost_lastcid":
+		return one(st, e.ghGet(s, "lastatomic", BV(64), IntConst(0))), true
 	case "ghost_ioerr":
 		return one(st, e.ioerrGet(s)), true
 	case "ghost_root":
@@ -405,6 +409,8 @@ func (e *Exec) invokeModel(st *State, fr *Frame, cc *ssa.CallCommon, recv *Iface
 		d := st.arrayOf(buf.Elem, comp{"", BV(8)}, buf.Arr)
 		n, err := e.writeN(st, recv.Ref, d, buf.Off, buf.Len)
 		return one(st, n, err), true
+	case cc.Method.Name() == "Value" && it == "context.Context":
+		return one(st, e.ctxValue(st, recv, args[0].(*IfaceV))), true
 	case cc.Method.Name() == "Error" && it == "error":
 		e.note("trusted: error.Error() of a foreign error value is an unspecified string (a function of the value)")
 		s := &StrV{Data: App("errtext.data", byteArr, recv.Tid, recv.Ref), Len: App("errtext.len", BV(64), recv.Tid, recv.Ref)}
@@ -412,4 +418,67 @@ func (e *Exec) invokeModel(st *State, fr *Frame, cc *ssa.CallCommon, recv *Iface
 		return one(st, s), true
 	}
 	return nil, false
+}
+
+// context values: context.WithValue creates an object with ghost fields key, val, parent.
+func (e *Exec) ctxValue(st *State, recv, key *IfaceV) *IfaceV {
+	isVal := e.ghGet(st, "ctx.isvalue", SBool, recv.Ref)
+	kT, kR := e.ghGet(st, "ctx.key.tid", SInt, recv.Ref), e.ghGet(st, "ctx.key.ref", SInt, recv.Ref)
+	vT, vR := e.ghGet(st, "ctx.val.tid", SInt, recv.Ref), e.ghGet(st, "ctx.val.ref", SInt, recv.Ref)
+	pT, pR := e.ghGet(st, "ctx.parent.tid", SInt, recv.Ref), e.ghGet(st, "ctx.parent.ref", SInt, recv.Ref)
+	match := And(isVal, Eq(kT, key.Tid), Eq(kR, key.Ref))
+	// what the parent chain (or a foreign context) answers: an unspecified function of (context, key)
+	inT := Ite(isVal, pT, recv.Tid)
+	inR := Ite(isVal, pR, recv.Ref)
+	uT := App("ctx.lookup.tid", SInt, inT, inR, key.Tid, key.Ref)
+	uR := App("ctx.lookup.ref", SInt, inT, inR, key.Tid, key.Ref)
+	st.AssumeFact(IntLe(IntConst(0), uT))
+	return &IfaceV{Tid: Ite(match, vT, uT), Ref: Ite(match, vR, uR)}
+}
+
+func init() {
+	models["context.WithValue"] = func(e *Exec, st *State, fr *Frame, fn *ssa.Function, args []Value, pos token.Pos) []Outcome {
+		e.note("trusted: context.WithValue/Value contract (a value context answers its own key, otherwise delegates to its parent)")
+		parent, key, val := args[0].(*IfaceV), args[1].(*IfaceV), args[2].(*IfaceV)
+		e.oblige(st, fr, "safe.nil", pos, Not(Eq(parent.Tid, IntConst(0))))
+		r := st.NewRef()
+		e.ghSet(st, "ctx.isvalue", SBool, r, True)
+		e.ghSet(st, "ctx.key.tid", SInt, r, key.Tid)
+		e.ghSet(st, "ctx.key.ref", SInt, r, key.Ref)
+		e.ghSet(st, "ctx.val.tid", SInt, r, val.Tid)
+		e.ghSet(st, "ctx.val.ref", SInt, r, val.Ref)
+		e.ghSet(st, "ctx.parent.tid", SInt, r, parent.Tid)
+		e.ghSet(st, "ctx.parent.ref", SInt, r, parent.Ref)
+		return one(st, &IfaceV{Tid: e.tidNamed("*context.valueCtx"), Ref: r})
+	}
+	atomicAdd := func(w int) model {
+		return func(e *Exec, st *State, fr *Frame, fn *ssa.Function, args []Value, pos token.Pos) []Outcome {
+			p := args[0].(*PtrV)
+			e.nilCheck(st, fr, p, pos)
+			l := e.locOf(p)
+			e.frameCheck(st, fr, l, pos)
+			nv := BVAdd(st.LoadLoc(l).(*Term), args[1].(*Term))
+			st.StoreLoc(l, nv)
+			e.ghSet(st, "lastatomic", BV(64), IntConst(0), SignExt(nv, 64))
+			return one(st, nv)
+		}
+	}
+	models["sync/atomic.AddInt64"] = atomicAdd(64)
+	models["sync/atomic.AddInt32"] = atomicAdd(32)
+	models["sync/atomic.AddUint64"] = atomicAdd(64)
+	models["sync/atomic.AddUint32"] = atomicAdd(32)
+	emit := func(e *Exec, st *State, fr *Frame, fn *ssa.Function, args []Value, pos token.Pos) []Outcome {
+		e.note("trusted: (*log.Logger).Print* writes exactly one line to the logger's writer, atomically")
+		p := args[0].(*PtrV)
+		e.nilCheck(st, fr, p, pos)
+		cur := e.ghGet(st, "emitted", BV(64), IntConst(0))
+		e.ghSet(st, "emitted", BV(64), IntConst(0), BVAdd(cur, BVConst(1, 64)))
+		return one(st)
+	}
+	models["(*log.Logger).Println"] = emit
+	models["(*log.Logger).Printf"] = emit
+	models["(*log.Logger).Print"] = emit
+	models["fmt.Fprintf"] = pureOpaque("fmt.Fprintf")
+	models["fmt.Fprintln"] = pureOpaque("fmt.Fprintln")
+	models["fmt.Fprint"] = pureOpaque("fmt.Fprint")
 }
